@@ -149,6 +149,44 @@ def run_unit(uname, ucfg, tier, repo, verif, build, log):
     _reap_solvers()
     res['checker_cmd'] = ' '.join(cmd[:cmd.index('--harness')] if '--harness' in cmd else cmd) + ' --harness <each declared harness>'
     res['wall_s'] = round(time.time() - t0, 1)
+    # dependency closure: a change may have introduced a private helper function that the extracted text now calls. If the
+    # harness crate fails with "cannot find function `f`", copy `fn f` from the source files this unit already extracts from
+    # (plain text, byte for byte) and rebuild -- at most three rounds.
+    rounds = 0
+    while rounds < 3 and ('error[E0425]' in out):
+        missing = sorted(set(re.findall(r'cannot find function `(\w+)` in this scope', out)))
+        if not missing:
+            break
+        added = []
+        srcs = sorted({it['source'] for it in items if it.get('source', '').endswith('.rs')})
+        gen_files = [os.path.join(r_, f_) for r_, _, fs_ in os.walk(os.path.join(dst, 'src')) for f_ in fs_ if f_ == 'extracted.rs']
+        if not gen_files:
+            break
+        for name in missing:
+            for rel in srcs:
+                try:
+                    ex2 = extract.Extracted()
+                    text = extract.extract_fn(repo, f'{rel} :: fn {name}\n  plain', '', ex2)
+                except (extract.ExtractError, extract.ScanError):
+                    continue
+                open(gen_files[0], 'a').write('\n// helper pulled in by the dependency closure (called by extracted text)\n' + text + '\n')
+                items += ex2.items
+                rewrites.append(f'dependency closure: copied private helper `fn {name}` from {rel}')
+                added.append(name)
+                break
+        if not added:
+            break
+        rounds += 1
+        try:
+            p = subprocess.run(cmd, cwd=dst, env=env, stdout=subprocess.PIPE, stderr=subprocess.STDOUT, text=True, timeout=ucfg.get('timeout', 3000))
+            out = p.stdout
+        except subprocess.TimeoutExpired as e:
+            out = (e.stdout.decode() if isinstance(e.stdout, bytes) else (e.stdout or '')) + '\n<<wall timeout>>'
+        open(os.path.join(build, 'logs', f'kani_{uname}.log'), 'w').write(out)
+        _reap_solvers()
+    res['functions'] = items + [dict(kind='api', source=s_['source'], selector=s_['selector'], sha=_sha_of(repo, s_), name=s_['selector'])
+                                for s_ in ucfg.get('api_under_contract', [])]
+    res['rewrites'] = rewrites
     if 'error: could not compile' in out or 'Failed to execute cargo' in out or 'error[E' in out:
         errs = [l for l in out.splitlines() if l.startswith('error')][:4]
         res.update(status='undecided', reason='harness crate does not compile against the current tree (API changed / lost anchor): ' + ' | '.join(errs))
